@@ -438,6 +438,10 @@ def method(eng, recv, meth, args, kw, n, st):
             if meth == "copy":
                 return recv
         if ty is TStr:
+            if meth == "replace" and len(args) == 2:
+                # python replaces ALL occurrences: uninterpreted (lemmas about it are stated where needed)
+                f = z3.Function("replace_all", z3.StringSort(), z3.StringSort(), z3.StringSort(), z3.StringSort())
+                return V(TStr, f(recv.t, args[0].t, args[1].t))
             if meth == "__hash__":
                 return V(TInt, z3.Function("hash_str", z3.StringSort(), z3.IntSort())(recv.t))
             if meth == "startswith":
